@@ -1836,7 +1836,13 @@ fn read_residuals<R: BitRead, I: SignedInteger>(
         let partition_order = reader.read::<4, u32>()?;
         let partition_count = 1 << partition_order;
 
-        let partitions = residuals.rchunks_mut(block_size / partition_count).rev();
+        let partition_len = match block_size / partition_count {
+            // more partitions than samples in the block
+            0 => return Err(Error::InvalidPartitionOrder),
+            len => len,
+        };
+
+        let partitions = residuals.rchunks_mut(partition_len).rev();
 
         if partitions.len() != partition_count {
             return Err(Error::InvalidPartitionOrder);
